@@ -787,3 +787,146 @@ Proof.
     destruct x as [|b|s|kd z]; try reflexivity.
     cbn [RoundtripProofs.scalar_small scalar_value cv cv_size] in *. unfold zlen. lia.
 Qed.
+
+Lemma decode_all_size : forall f b vs, cbor_decode_all f b = Some vs ->
+  (list_sum (map cv_size vs) <= length b)%nat.
+Proof.
+  induction f as [|f IH]; intros b vs H; [discriminate|]. cbn [cbor_decode_all] in H.
+  destruct b as [|x r]; [inversion H; subst; cbn; lia|].
+  destruct (cbor_decode (x :: r)) as [v rest| | |] eqn:E; try discriminate.
+  destruct (cbor_decode_all f rest) as [vs'|] eqn:E'; [|discriminate].
+  inversion H; subst. cbn [map]. rewrite list_sum_cons.
+  apply IH in E'. unfold cbor_decode in E. apply ref_size in E. lia.
+Qed.
+
+Lemma trees_small ts N : forallb wf_tree ts = true ->
+  (list_sum (map cv_size (tvals ts)) <= N)%nat -> Z.of_nat N < 2 ^ 64 ->
+  forallb tree_small ts = true.
+Proof.
+  intros Hwf Hsz HN. apply forallb_forall. intros t Ht.
+  apply (small_of_size t N); [eapply forallb_forall in Hwf; eassumption| |exact HN].
+  unfold tvals in Hsz. rewrite map_map in Hsz.
+  pose proof (list_sum_in (fun t => cv_size (cv (value_of t))) ts t Ht). cbn beta in *. lia.
+Qed.
+
+(* ====================================================================== *)
+(* Part D: the compositions                                                 *)
+(* ====================================================================== *)
+
+(* ---------- C01: encode, then parse, in any chunking ---------- *)
+(* Side condition: the output is at most MaxInt64 bytes long (always true of a
+   Go []byte).  It cannot be dropped: tree_small allows a string of 2^63
+   bytes, whose head the parser refuses - see [len_2_63_refused] below. *)
+Theorem C01_cbor : forall t, wf_tree t = true -> tree_small t = true ->
+  exists bs, cbor_encode (flatten t) = Some bs /\ all_bytes bs = true /\
+    ((zlen bs <=? MaxInt64) = true ->
+     forall cs, concat cs = bs ->
+       exists evs t', run_chunks None cs = Ok (evs, nilE) /\ stream_tree evs = Some t' /\
+                      wf_tree t' = true /\ cv (value_of t') = cv (value_of t)).
+Proof.
+  intros t Hw Hs. destruct (RoundtripProofs.C07_cbor t Hw Hs) as (bs & E & D).
+  pose proof (cbor_encode_tree_bytes t bs Hw E) as Hb.
+  exists bs. split; [exact E|]. split; [exact Hb|]. intros Hsz cs Hc.
+  destruct (C05_accept bs _ Hb Hsz D) as (evs & t' & Hrun & Hst & Hwf & Hcv).
+  exists evs, t'. rewrite chunks_as_parse by (rewrite Hc; exact Hb). rewrite Hc. auto.
+Qed.
+Print Assumptions C01_cbor.
+
+(* the events the parser delivers are those of a tree that differs from the
+   encoded one only in representation (same canonical value) *)
+Corollary C01_cbor_parse : forall t bs, wf_tree t = true -> tree_small t = true ->
+  cbor_encode (flatten t) = Some bs -> (zlen bs <=? MaxInt64) = true ->
+  exists evs t', run_parse None bs = Ok (evs, nilE) /\ stream_tree evs = Some t' /\
+                 wf_tree t' = true /\ cv (value_of t') = cv (value_of t).
+Proof.
+  intros t bs Hw Hs E Hsz. destruct (C01_cbor t Hw Hs) as (bs' & E' & Hb & H).
+  rewrite E in E'. inversion E'; subst bs'.
+  destruct (H Hsz [bs] ltac:(cbn [concat]; apply app_nil_r)) as (evs & t' & Hrun & Hrest).
+  exists evs, t'. split; [|exact Hrest].
+  rewrite chunks_as_parse in Hrun by (cbn [concat]; rewrite app_nil_r; exact Hb).
+  cbn [concat] in Hrun. rewrite app_nil_r in Hrun. exact Hrun.
+Qed.
+Print Assumptions C01_cbor_parse.
+
+(* why the length side condition is there: a text string head announcing 2^63
+   bytes (what the encoder writes for a string of that length) is refused at
+   once with "length out of range", whatever follows *)
+Example len_2_63_refused :
+  cb_head majorText (2 ^ 63) = 123 :: be_enc 8 (2 ^ 63) /\
+  run_parse None (cb_head majorText (2 ^ 63)) = Ok ([], eLenRange).
+Proof. vm_compute. auto. Qed.
+
+(* ---------- C08 for (CBOR, CBOR): parser connected to encoder ---------- *)
+Lemma single_doc b v ts : cbor_decode b = RValue v [] ->
+  cbor_decode_all (S (length b)) b = Some (tvals ts) ->
+  exists t, ts = [t] /\ cv (value_of t) = v.
+Proof.
+  intros Hd Hall. destruct b as [|x r]; [discriminate Hd|].
+  cbn [cbor_decode_all] in Hall. rewrite Hd in Hall. cbn [length cbor_decode_all] in Hall.
+  inversion Hall as [Hts]. destruct ts as [|t [|t' ts']]; try discriminate.
+  unfold tvals in Hts. cbn [map] in Hts. inversion Hts. exists t. auto.
+Qed.
+
+Theorem C08_cbor_cbor : forall b v, all_bytes b = true -> (zlen b <=? MaxInt64) = true ->
+  cbor_decode b = RValue v [] ->
+  forall cs, concat cs = b ->
+  exists evs out, run_chunks None cs = Ok (evs, nilE) /\ cbor_encode evs = Some out /\
+                  cbor_decode out = RValue v [].
+Proof.
+  intros b v Hb Hsz Hd cs Hc.
+  destruct (C05_accept b v Hb Hsz Hd) as (evs & _ & Hrun & _).
+  destruct (C09_cbor_accepted_wf b evs Hb Hsz Hrun) as (ts & -> & Hwf & Hall).
+  destruct (single_doc b v ts Hd Hall) as (t & -> & Hcv).
+  cbn [forallb] in Hwf. rewrite andb_true_r in Hwf. cbn [flat_map] in *. rewrite app_nil_r in *.
+  assert (Hsm : tree_small t = true).
+  { apply (small_of_size t (length b) Hwf).
+    - unfold cbor_decode in Hd. apply ref_size in Hd. rewrite Hcv. cbn [length] in Hd. lia.
+    - unfold MaxInt64, zlen in Hsz. lia. }
+  destruct (RoundtripProofs.C07_cbor t Hwf Hsm) as (out & E & D).
+  exists (flatten t), out. rewrite chunks_as_parse by (rewrite Hc; exact Hb). rewrite Hc, <- Hcv. auto.
+Qed.
+Print Assumptions C08_cbor_cbor.
+
+(* the general form: whatever input the parser accepts (any number of
+   top-level items), re-encoding its events gives a document that the
+   reference decodes to the same sequence of values *)
+Theorem C08_cbor_cbor_stream : forall b evs, all_bytes b = true -> (zlen b <=? MaxInt64) = true ->
+  run_parse None b = Ok (evs, nilE) ->
+  exists out vs, cbor_encode evs = Some out /\
+    cbor_decode_all (S (length b)) b = Some vs /\
+    cbor_decode_all (S (length out)) out = Some vs.
+Proof.
+  intros b evs Hb Hsz Hrun.
+  destruct (C09_cbor_accepted_wf b evs Hb Hsz Hrun) as (ts & -> & Hwf & Hall).
+  assert (Hsm : forallb tree_small ts = true).
+  { apply (trees_small ts (length b) Hwf).
+    - eapply decode_all_size. exact Hall.
+    - unfold MaxInt64, zlen in Hsz. lia. }
+  destruct (RoundtripProofs.C07_cbor_stream ts Hwf Hsm) as (out & E & D).
+  exists out, (tvals ts). auto.
+Qed.
+Print Assumptions C08_cbor_cbor_stream.
+
+(* and the re-encoded document is again accepted by the parser, with the same
+   values: parse . encode . parse = parse on values *)
+Theorem C08_cbor_reparse : forall b v, all_bytes b = true -> (zlen b <=? MaxInt64) = true ->
+  cbor_decode b = RValue v [] ->
+  exists evs out, run_parse None b = Ok (evs, nilE) /\ cbor_encode evs = Some out /\
+    all_bytes out = true /\
+    ((zlen out <=? MaxInt64) = true ->
+     exists evs2 t2, run_parse None out = Ok (evs2, nilE) /\ stream_tree evs2 = Some t2 /\
+                     wf_tree t2 = true /\ cv (value_of t2) = v).
+Proof.
+  intros b v Hb Hsz Hd.
+  destruct (C08_cbor_cbor b v Hb Hsz Hd [b] ltac:(cbn [concat]; apply app_nil_r))
+    as (evs & out & Hrun & E & D).
+  rewrite chunks_as_parse in Hrun by (cbn [concat]; rewrite app_nil_r; exact Hb).
+  cbn [concat] in Hrun. rewrite app_nil_r in Hrun.
+  destruct (C09_cbor_accepted_wf b evs Hb Hsz Hrun) as (ts & He & Hwf & _).
+  assert (Hob : all_bytes out = true).
+  { eapply cbor_encode_bytes; [|exact E]. rewrite He, forallb_flat_map.
+    eapply forallb_impl; [|exact Hwf]. intros t. apply flatten_ev_ok. }
+  exists evs, out. repeat split; try assumption.
+  intro Hosz. apply C05_accept; assumption.
+Qed.
+Print Assumptions C08_cbor_reparse.
